@@ -55,6 +55,15 @@ def one_case(ctx, g, rng, length):
         cls = g.CodeBlock if rng.random() < 0.5 else g.DataBlock
         blocks.append(cls(offset=off, size=bsz, byte_interval=bi))
 
+    # a block that belongs to no interval: no address, no bytes, address membership always false, offset membership by its own range
+    free = (g.CodeBlock if rng.random() < 0.5 else g.DataBlock)(offset=rng.choice([0, 3]), size=rng.choice([0, 2]))
+    fr = (free.address, bytes(free.contents), [free.contains_address(a) for a in (0, 3, 4, 100)],
+          [free.contains_offset(o) for o in (free.offset - 1, free.offset, free.offset + free.size - 1, free.offset + free.size)])
+    want_fr = (None, b"", [False] * 4, [free.offset <= o < free.offset + free.size for o in (free.offset - 1, free.offset, free.offset + free.size - 1, free.offset + free.size)])
+    ctx.count("detached_block_views")
+    if fr != want_fr:
+        problems.append("a block outside any interval reports address/contents/contains_address/contains_offset %r, expected %r" % (fr, want_fr))
+
     def observe():
         nonlocal beyond
         if twin is not None and (bytes(twin.contents) != contents or twin.size != n or twin.initialized_size != n):
@@ -168,9 +177,48 @@ def one_case(ctx, g, rng, length):
     return head + [items], impl, problems
 
 
+def loader_rejection(ctx, g, rng, n):
+    """'construction and LOADING reject more stored bytes than the interval's size': a saved file is edited at message level so that
+    one interval carries more bytes than its size (size lowered, or bytes appended) and loaded again -> ValueError, never an IR."""
+    import protocheck
+    for i in range(n):
+        nb = rng.choice([1, 2, 5, 9])
+        size = nb + rng.choice([0, 0, 1, 7])
+        ir = g.IR()
+        sec = g.Section(name="s", module=g.Module(name="m", ir=ir))
+        others = [g.ByteInterval(size=4, contents=b"ab", section=sec) for _ in range(rng.choice([0, 1, 2]))]
+        bi = g.ByteInterval(address=rng.choice([None, 0, 4096]), size=size, contents=bytes(rng.randrange(256) for _ in range(nb)), section=sec)
+        g.CodeBlock(size=1, offset=0, byte_interval=bi)
+        bs = protocheck.save_bytes(ir)
+        p = protocheck.parse_body(bs)
+        pbi = [x for x in p.modules[0].sections[0].byte_intervals if bytes(x.uuid) == bi.uuid.bytes][0]
+        how = rng.choice(["size-lowered", "size-zero", "bytes-appended"])
+        if how == "size-lowered":
+            pbi.size = rng.randrange(0, nb)
+        elif how == "size-zero":
+            pbi.size = 0
+        else:
+            pbi.contents = bytes(pbi.contents) + bytes(size - nb + rng.choice([1, 2, 30]))
+        f = bs[:8] + p.SerializeToString()
+        ctx.case("loader-rejection:%s:%d/%d" % (how, len(pbi.contents), pbi.size), True)
+        ctx.count("loader_rejection:" + how)
+        try:
+            ir2 = protocheck.load_bytes(g, f)
+        except ValueError:
+            continue
+        except Exception as e:  # noqa: BLE001
+            ctx.add("oracle", "load:bytes-beyond-size-class", "a file whose interval stores %d bytes in size %d is rejected with %s, not ValueError"
+                    % (len(pbi.contents), pbi.size, exc_name(g, e)), {"file": f.hex(), "must_reject_with": "ValueError"})
+            continue
+        b2 = ir2.get_by_uuid(bi.uuid)
+        ctx.add("oracle", "load:bytes-beyond-size", "a file whose interval stores %d bytes in size %d is loaded: the interval has size %r and %d stored bytes"
+                % (len(pbi.contents), pbi.size, getattr(b2, "size", None), len(getattr(b2, "contents", b""))), {"file": f.hex(), "must_reject_with": "ValueError"})
+
+
 def run(ctx):
     g = gtirb_from_repo.load()
     nc, ln = (300, 8) if ctx.quick else (6000, 14)
+    loader_rejection(ctx, g, ctx.rng, 40 if ctx.quick else 600)
     cases = []
     for _ in range(nc):
         req, impl, problems = one_case(ctx, g, ctx.rng, ln)
